@@ -161,6 +161,8 @@ def rule_iter_python(ctx, m):
         outer = _AsFor(outer, env)
         _rows_ok(ctx, mod.path, fn, outer, env, amap)
         benv = env.copy()
+        for v_ in assigned_vars(outer.body):
+            benv[v_] = ('var', v_ + '@in')          # whatever the previous row left behind
         benv[outer.var] = ('var', 'r')
         ex2 = Exec()
         idx = outer.body.index(inner)
@@ -169,6 +171,16 @@ def rule_iter_python(ctx, m):
             it = subst_expr(inner.iter, benv)
         else:
             it = ('call', ('var', 'range'), (subst_expr(inner.lo, benv), subst_expr(inner.hi, benv)), ())
+        carried = sorted({x[1][:-3] for x in walk_expr(it) if x[0] == 'var' and x[1].endswith('@in')})
+        if carried:
+            own = inner.k == 'for' and carried == [inner.var]
+            if own:
+                ctx.violation('R-ITER', mod.path, fn, 'pair loop column range',
+                              'the column loop of a row starts from the value `%s` left by the previous row\'s column loop (on the path where it is not re-initialised): that '
+                              'loop ran until %s >= %s, so every later row enumerates no pair and its slots keep their filler' % (inner.var, inner.var, fmt(inner.hi)), inner.line)
+            else:
+                ctx.undecided('R-ITER', '%s pair loop' % fn, 'the column range depends on values carried between rows: %s' % carried)
+            continue
         triu_exprs = _triu_exprs(it)
         los, his = _range_bounds(it)
         if los is None:
@@ -469,6 +481,34 @@ def _pair_call_order(ctx, file, fn, inner, rvar, cvar):
     # (series r, length r, series c, length c): arguments 0,1 depend on the row variable only, 2,3 on the column variable only
     ok = names[0] == rvar and names[2] == cvar and names[1] in (rvar, None) and names[3] in (cvar, None)
     ctx.check(ok, 'R-ITER', file, fn, 'pair order', 'the kernel must be called with (row series, column series); found %s' % fmt(c)[:160], inner.line)
+    # ... and each series argument addresses element r (resp. c) of its container: table entry P[r] with its length L[r], or row r of a row-major array,
+    # &M[r * width (* ndim)] with that width as the length argument
+    from ..canon import same
+    has_ndim = any(a == ('var', 'ndim') for a in c[2])
+    for pos, v, role in ((0, rvar, 'row'), (2, cvar, 'column')):
+        if len(c[2]) < pos + 2:
+            continue
+        sa_, la = c[2][pos], c[2][pos + 1]
+        V_ = ('var', v)
+        if sa_[0] == 'idx' and sa_[2] == V_ and sa_[1][0] == 'var':
+            oka = la[0] == 'idx' and la[2] == V_ and la[1][0] == 'var'
+        elif sa_[0] == 'un' and sa_[1] == 'addr' and sa_[2][0] == 'idx' and sa_[2][1][0] == 'var':
+            want = ('bin', '*', V_, la)
+            oka = same(sa_[2][2], want) or (has_ndim and same(sa_[2][2], ('bin', '*', want, ('var', 'ndim'))))
+        else:
+            # pointer arithmetic M + offset: the same address as &M[offset]
+            from ..canon import addends, poly_norm
+            oka = False
+            pos_t, _neg_t = addends(sa_)
+            for t in pos_t:
+                if t[0] == 'var' and t[1] not in (rvar, cvar):
+                    off = poly_norm(('bin', '-', sa_, t))
+                    want = poly_norm(('bin', '*', V_, la))
+                    oka = oka or off == want or (has_ndim and off == poly_norm(('bin', '*', ('bin', '*', V_, la), ('var', 'ndim'))))
+        ctx.check(oka, 'R-ITER', file, fn, 'kernel call %s series address' % role,
+                  'the %s series of pair (r, c) must be element %s of its container -- P[%s] with length L[%s], or &M[%s * width%s] with that width as its length; found (%s, %s): '
+                  'another series is compared (the result then depends on the container and the block)'
+                  % (role, v, v, v, v, ' * ndim' if has_ndim else '', fmt(sa_)[:80], fmt(la)[:40]), inner.line)
     ctx.sample({'enumerator': fn, 'kernel call': fmt(c)[:160]})
     return dotted(c[1])
 
